@@ -33,3 +33,9 @@ import pygal_on_ready  # noqa: E402
 
 # taskiq/scheduler/scheduler.py: TaskiqScheduler.on_ready (C16), monadic backend over PyStm.v / PyPreludeSched.v
 SPECS["on_ready"] = pygal_on_ready.SPEC
+
+import pygal_procman  # noqa: E402
+
+# taskiq/cli/worker/process_manager.py: ProcessManager.start (one iteration of its loop) / prepare_workers,
+# ReloadAllAction.handle, ReloadOneAction.handle (C17, C18), monadic backend over PyPreludeProcMan.v (a state monad)
+SPECS["procman"] = pygal_procman.SPEC
